@@ -177,13 +177,16 @@ fn simple_tx() -> tir::Tx {
     }
 }
 
-fn hostile_store(rng: &mut Rng, gen: &mut TirGen, addrs: &[Vec<u8>]) -> Vec<Utxo> {
+fn hostile_store(rng: &mut Rng, gen: &mut TirGen, addrs: &[Vec<u8>], tokens: &[(Vec<u8>, Vec<u8>)]) -> Vec<Utxo> {
     let n = match rng.below(5) {
         0 => 0,
         1 => 1,
-        2 => 60 + rng.usize(40),
+        2 => 60 + rng.usize(80),
         _ => 2 + rng.usize(8),
     };
+    // how many of the UTxOs hold the template's own tokens: none, some, (nearly) all - a query by address and
+    // token then has more full matches than the selection window, next to partial ones
+    let token_pct = *rng.pick(&[0u64, 30, 95, 100]);
     (0..n)
         .map(|_| {
             let mut u = gen.utxo(rng, 3);
@@ -197,6 +200,10 @@ fn hostile_store(rng: &mut Rng, gen: &mut TirGen, addrs: &[Vec<u8>]) -> Vec<Utxo
                 let a = (*amount).clamp(-(1i128 << 80), 1i128 << 80);
                 clamped = clamped + tx3_tir::model::assets::CanonicalAssets::from_class_and_amount(class.clone(), a);
             }
+            if !tokens.is_empty() && rng.below(100) < token_pct {
+                let (p, n) = rng.pick(tokens).clone();
+                clamped = clamped + tx3_tir::model::assets::CanonicalAssets::from_class_and_amount(tx3_tir::model::assets::AssetClass::Defined(p, n), 1 + rng.below(1000) as i128);
+            }
             u.assets = clamped;
             u
         })
@@ -208,7 +215,7 @@ impl Property for C14 {
         "C14"
     }
     fn rule(&self) -> String {
-        "templates: programs of the generator (all features, chain-specific directives in 70% of them) lowered by the real front end, with type-correct but hostile arguments (integers from the i128 boundary set, byte strings of length 0/1/27..33/56/57/64 where 28 or 32 are expected, addresses of every Shelley kind, Byron-like, pointer, wrong-length and empty ones, UTxO references with short ids and index u32::MAX), stores that are empty, huge, hold negative amounts, odd class names and datums of any shape, protocol parameters with 0 / u64::MAX coefficients and missing cost models, fresh and used compiler instances; trees: random well-formed IR trees (every Expression / Param / op variant, depth <= 6) a client could send, with arguments for their parameters. Every public back-end entry point is driven (find_params, find_queries, is_constant, apply_args, apply_fees, Node::apply(compiler), reduce, apply_inputs, compile, inputs::resolve, resolve_tx). Oracle: each call returns; a panic (hook: message, file, first in-repo function), an abort (worker signal) or a reproducible watchdog overrun is a violation. Non-trivial: every case; distinct = distinct (IR, arguments).".into()
+        "templates: programs of the generator (all features, chain-specific directives in 70% of them) lowered by the real front end, with type-correct but hostile arguments (integers from the i128 boundary set, byte strings of length 0/1/27..33/56/57/64 where 28 or 32 are expected, addresses of every Shelley kind, Byron-like, pointer, wrong-length and empty ones, UTxO references with short ids and index u32::MAX), stores that are empty, huge, hold negative amounts, odd class names and datums of any shape, protocol parameters with 0 / u64::MAX coefficients and missing cost models, fresh and used compiler instances; wallets: one input query (by address and / or token) against wallets with 0..120 full matches and 0..60 partial ones (both sides of the selection window of 50 and of the 10 references an error message lists); trees: random well-formed IR trees (every Expression / Param / op variant, depth <= 6) a client could send, with arguments for their parameters. Every public back-end entry point is driven (find_params, find_queries, is_constant, apply_args, apply_fees, Node::apply(compiler), reduce, apply_inputs, compile, inputs::resolve, resolve_tx). Oracle: each call returns; a panic (hook: message, file, first in-repo function), an abort (worker signal) or a reproducible watchdog overrun is a violation. Non-trivial: every case; distinct = distinct (IR, arguments).".into()
     }
     fn assumptions(&self) -> Vec<String> {
         vec![
@@ -221,10 +228,11 @@ impl Property for C14 {
     }
     fn phases(&self, tier: Tier) -> Vec<Phase> {
         match tier {
-            Tier::Quick => vec![Phase::new("templates", 6_000, Profile::Checked), Phase::new("trees", 12_000, Profile::Checked)],
+            Tier::Quick => vec![Phase::new("templates", 6_000, Profile::Checked), Phase::new("trees", 12_000, Profile::Checked), Phase::new("wallets", 1_500, Profile::Checked)],
             Tier::Thorough => vec![
                 Phase::new("templates", 200_000, Profile::Checked),
                 Phase::new("trees", 400_000, Profile::Checked),
+                Phase::new("wallets", 60_000, Profile::Checked),
                 Phase::new("templates-release", 100_000, Profile::Release),
                 Phase::new("trees-release", 200_000, Profile::Release),
             ],
@@ -237,6 +245,63 @@ impl Property for C14 {
         let pp = pparams(rng);
         if pp.cost_models.len() < 3 {
             ctx.count("pparams/missing-cost-model");
+        }
+        if phase == "wallets" {
+            // one input query against a wide wallet: more UTxOs at the address (and more holders of the token)
+            // than the selection window of 50, next to partial matches - sizes on both sides of 10 and 50
+            let owner = {
+                let mut a = vec![0x60];
+                a.extend([0x5a; 28]);
+                a
+            };
+            let (pol, name) = (vec![0xc7u8; 28], b"WIDE".to_vec());
+            let n_full = *rng.pick(&[0usize, 9, 10, 11, 49, 50, 51, 52, 75, 120]);
+            let n_partial = *rng.pick(&[0usize, 1, 3, 40, 60]);
+            let n_other = rng.usize(30);
+            let mut store = vec![];
+            let mut k = 0u32;
+            let mut mk = |addr: Vec<u8>, token: bool, rng: &mut Rng| {
+                k += 1;
+                let mut txid = vec![0u8; 32];
+                txid[..4].copy_from_slice(&k.to_be_bytes());
+                let mut assets = tx3_tir::model::assets::CanonicalAssets::from_naked_amount(1_000_000 + rng.below(5_000_000) as i128);
+                if token {
+                    assets = assets + tx3_tir::model::assets::CanonicalAssets::from_defined_asset(&[0xc7u8; 28], b"WIDE", 1 + rng.below(20) as i128);
+                }
+                Utxo { r#ref: UtxoRef { txid, index: k % 4 }, address: addr, assets, datum: None, script: None }
+            };
+            for _ in 0..n_full {
+                store.push(mk(owner.clone(), true, rng));
+            }
+            for _ in 0..n_partial {
+                store.push(mk(owner.clone(), false, rng));
+            }
+            for _ in 0..n_other {
+                let mut other = vec![0x60];
+                other.extend([0x11; 28]);
+                store.push(mk(other, rng.bool(), rng));
+            }
+            let with_address = rng.chance(3, 4);
+            let with_token = !with_address || rng.chance(3, 4);
+            let mut min = vec![tir::AssetExpr { policy: tir::Expression::None, asset_name: tir::Expression::None, amount: tir::Expression::Number(rng.below(3_000_000) as i128) }];
+            if with_token {
+                min.push(tir::AssetExpr { policy: tir::Expression::Bytes(pol), asset_name: tir::Expression::Bytes(name), amount: tir::Expression::Number(1 + rng.below(40) as i128) });
+            }
+            let q = tir::InputQuery {
+                address: if with_address { tir::Expression::Address(owner) } else { tir::Expression::None },
+                min_amount: tir::Expression::Assets(min),
+                r#ref: tir::Expression::None,
+                many: rng.bool(),
+                collateral: false,
+            };
+            let mut tx = simple_tx();
+            tx.inputs.push(tir::Input { name: "source".into(), utxos: tir::Expression::EvalParam(Box::new(tir::Param::ExpectInput("source".into(), q))), redeemer: tir::Expression::None });
+            ctx.count(if n_full > 50 { "wallets/full-matches>50" } else { "wallets/full-matches<=50" });
+            let detail = || json!({"phase": "wallets", "full_matches": n_full, "partial_matches": n_partial, "elsewhere": n_other, "with_address": with_address, "with_token": with_token});
+            ctx.eval();
+            self.resolve_paths(ctx, &tx, &BTreeMap::new(), store, &pp, &detail);
+            ctx.nontrivial(fnv64(format!("wallet{idx}{n_full}{n_partial}{n_other}{with_address}{with_token}").as_bytes()));
+            return;
         }
         if phase.starts_with("templates") {
             let cfg = Cfg { cardano_pct: 70, boundary_ints: true, min_utxo: true, ..Default::default() };
@@ -273,7 +338,8 @@ impl Property for C14 {
                 let mut gen = TirGen::new(4, true);
                 // store: the world's UTxOs plus noise
                 let mut store: Vec<Utxo> = w.inputs.values().flatten().filter_map(env::to_utxo).collect();
-                store.extend(hostile_store(rng, &mut gen, &addrs));
+                let tokens: Vec<(Vec<u8>, Vec<u8>)> = g.prog.assets.iter().map(|a| (a.policy.clone(), a.asset_name.clone())).collect();
+                store.extend(hostile_store(rng, &mut gen, &addrs, &tokens));
                 if rng.chance(1, 6) {
                     store.clear();
                 }
@@ -294,7 +360,7 @@ impl Property for C14 {
                     args.insert(name.clone(), hostile_arg(ty, rng));
                 }
             }
-            let store = hostile_store(rng, &mut gen, &[]);
+            let store = hostile_store(rng, &mut gen, &[], &[]);
             let origin = json!({"kind": "random-ir-tree"});
             self.drive(ctx, &tx, &args, store, &pp, rng, &origin);
             ctx.nontrivial(crate::canon::canon_hash(&tx));
